@@ -247,6 +247,14 @@ def run_task(task, root='/repo', both=False):
         h.unsupported = str(e)
     except PyExc as e:
         h.unsupported = 'uncaught interpreted exception %s at %s' % (e.kind, e.origin)
+    except KeyError as e:
+        tb = traceback.format_exc()
+        if 'in lookup' in tb and 'raise KeyError(name)' in tb:
+            # a contract looked up a local variable the function no longer has: binding lost (undecided), not a fault
+            h.unsupported = 'binding lost: the contract refers to local variable %s, which the function no longer has' % e
+        else:
+            h.unsupported = 'engine fault: %s\n%s' % (e, tb[-1500:])
+            h.fault = True
     except Exception as e:
         h.unsupported = 'engine fault: %s\n%s' % (e, traceback.format_exc()[-1500:])
         h.fault = True
